@@ -291,6 +291,17 @@ inline void run_pool(const std::string& name, int W,
                      const std::function<std::string(int)>& describe_cur) {
     std::vector<pid_t> pids(W, 0);
     std::vector<int> restarts(W, 0);
+    // a defect that kills the worker in a large share of the cases must not turn a section into hours of
+    // restarts: after `crash_budget` attributed crashes/hangs the section is stopped and reported INCOMPLETE
+    long crash_budget = getenv("VERIF_CRASH_BUDGET") ? atol(getenv("VERIF_CRASH_BUDGET")) : 1500;
+    long crashes = 0; bool stopped = false;
+    auto stop_all = [&](int& live_ref) {
+        if (stopped) return;
+        stopped = true;
+        emit("INCOMPLETE\t" + name + "\tstopped after " + std::to_string(crashes) + " crashing cases (budget); the rest of the section was not executed");
+        for (int i = 0; i < W; i++) if (pids[i] > 0) { kill(pids[i], SIGKILL); int st3; waitpid(pids[i], &st3, 0); pids[i] = 0; }
+        live_ref = 0;
+    };
     std::string td = tmpdir();
     auto spawn = [&](int w, bool resume) {
         g_shm[w].progress_ts = now_s();
@@ -320,6 +331,7 @@ inline void run_pool(const std::string& name, int W,
                 kill(pids[w], SIGKILL);
                 int st2; waitpid(pids[w], &st2, 0);
                 emit("FAIL\t" + name + ":" + describe_cur(w) + "\thang/" + name + "/" + std::string(g_shm[w].ctx) + fmt("\tno progress for %.0f s; worker killed", opt.hang_s));
+                if (++crashes > crash_budget) { stop_all(live); break; }
                 if (++restarts[w] > 2000) { emit("INCOMPLETE\t" + name + "\ttoo many restarts"); pids[w] = 0; live--; }
                 else spawn(w, true);
             }
@@ -357,6 +369,7 @@ inline void run_pool(const std::string& name, int W,
             for (int i = 0; i < s.ncounters; i++) if (strcmp(s.counters[i].name, "fail_events") == 0) { s.counters[i].v++; f = true; }
             if (!f && s.ncounters < 96) { strcpy(s.counters[s.ncounters].name, "fail_events"); s.counters[s.ncounters].v = 1; s.ncounters++; }
         }
+        if (++crashes > crash_budget) { stop_all(live); break; }
         if (++restarts[w] > 5000) { emit("INCOMPLETE\t" + name + "\ttoo many crashes in one shard"); pids[w] = 0; live--; }
         else spawn(w, true);
     }
@@ -390,10 +403,10 @@ inline void run_replay(const std::string& name, const std::function<void()>& bod
     for (;;) {
         pid_t r = waitpid(p, &st, WNOHANG);
         if (r == p) break;
-        if (now_s() - t0 > opt.hang_s * 10) { kill(p, SIGKILL); waitpid(p, &st, 0); killed = true; break; }
+        if (now_s() - t0 > opt.hang_s * 3) { kill(p, SIGKILL); waitpid(p, &st, 0); killed = true; break; }
         usleep(1000);
     }
-    if (killed) { g_replay_fails++; printf("FAIL\t%s:%s\thang/%s/%s\tno result within %.0f s\n", name.c_str(), g_case.c_str(), name.c_str(), shm->ctx, opt.hang_s * 10); return; }
+    if (killed) { g_replay_fails++; printf("FAIL\t%s:%s\thang/%s/%s\tno result within %.0f s\n", name.c_str(), g_case.c_str(), name.c_str(), shm->ctx, opt.hang_s * 3); return; }
     if (WIFEXITED(st) && WEXITSTATUS(st) == 0) return;
     if (WIFEXITED(st) && WEXITSTATUS(st) == 41) { g_replay_fails++; return; }
     std::string err = read_file(ef);
